@@ -138,5 +138,5 @@ def dropped_report():
         "docstrings and type annotations (no run-time meaning)",
         "functools.lru_cache decorators: treated as identity (purity / non-mutation of cached results are separate frame obligations)",
         "functools.singledispatch / .register decorators: dispatch resolved by the class named in the contract",
-        "f-strings: evaluated to an opaque string constant (only used in error messages)",
+        "f-strings: formatted for real when every interpolated value is concrete on the path (labels of calc_reshape_args); otherwise an opaque text that may be raised / stored but not inspected",
     ]
